@@ -1,14 +1,45 @@
 import E3fpVerif.DriverDb
 import E3fpVerif.Model.Metrics
+import E3fpVerif.Model.MetricsDispatch
 namespace E3fpVerif
 open Lean
 
 def qJ (q : Rat) : Json := Json.mkObj [("q", ratToJson q)]
 def pairJ (p : Rat × Rat) : Json := Json.mkObj [("num", ratToJson p.1), ("rad", ratToJson p.2)]
 
+def jMeasure (s : String) : Except String Measure :=
+  match s with
+  | "tanimoto" => .ok .tanimoto | "dice" => .ok .dice | "soergel" => .ok .soergel
+  | "cosine" => .ok .cosine | "pearson" => .ok .pearson
+  | _ => .error "bad measure"
+
+/-- an operand: {"fp": <fingerprint>} or {"db": {"kind", "level", "fps": [<fingerprint>…]}} -/
+def jItem (j : Json) : Except String Item := do
+  if let .ok f := j.getObjVal? "fp" then return .fp (← jFp f)
+  let d ← jField j "db"
+  let k ← jKind (← jField d "kind")
+  let lvl ← jInt (← jField d "level")
+  let fps ← jList jFp (← jField d "fps")
+  let r := (Db.new k lvl none).add (fps.map (fun f => (⟨f, none, []⟩ : FpIn)))
+  match r.2 with
+  | none => return .db r.1
+  | some _ => .error "cannot build database operand"
+
+def simJ : Sim → Json
+  | .q v => qJ v
+  | .root n r => pairJ (n, r)
+
 def metricsOp (op : String) (j : Json) : Except String Json := do
   let m ← jStr (← jField j "m")
   match op with
+  | "met.dispatch" =>
+    let mm ← jMeasure m
+    let a ← jItem (← jField j "a")
+    let b ← jOpt jItem (jFieldD j "b")
+    match metricDispatch mm a b with
+    | .error e => return errJ e
+    | .ok (.inl s) => return okJ (Json.mkObj [("scalar", simJ s)])
+    | .ok (.inr rows) => return okJ (Json.mkObj [("matrix", Json.arr (rows.map (fun r => Json.arr (r.map simJ).toArray)).toArray)])
   | "met.fp" =>
     let a ← jFp (← jField j "a"); let b ← jFp (← jField j "b")
     match m with
